@@ -14,7 +14,11 @@ t += ("\n\nHARD MODE: earlier, simpler seeded changes for this property were all
       "needs a rare combination: a boundary value (i128/u32 extremes, exactly-at-limit), an interplay of two features or two contracts, a "
       "state reached only after several steps, or a path that ordinary use never takes. Still realistic, still small.\n"
       "Keep each of your messages and tool inputs small (write files in pieces if long) so that you do not hit output limits.")
-if hint:
+if hint and "::" in hint or (hint and " fn " in hint):
+    t += ("\n\nWHERE: the property's authors name this function among the mechanisms the property rests on: " + hint + " . Make your "
+          "change IN THAT FUNCTION (or in a helper only it uses). If you are convinced that no change there can violate the property while "
+          "keeping all existing tests green, say so in meta.json (\"impossible\": \"<why>\") and stop.")
+elif hint:
     t += ("\n\nWHERE: the property's authors name this file among the code the property is anchored in: " + hint + " . Make your change "
           "THERE (a second cooperating site elsewhere is allowed if needed). If, after reading it, you are convinced that no change to that "
           "file can violate the property while keeping all existing tests green, say so in meta.json (\"property\": ..., \"impossible\": "
